@@ -293,7 +293,7 @@ func buildServerModelUncached(l *Loaded) *ServerModel {
 							paramUses[s.Root.Obj] = map[int][]*BackendSite{}
 						}
 						paramUses[s.Root.Obj][pi] = append(paramUses[s.Root.Obj][pi], bs)
-					} else if m.isFreshLocal(s.Root, v) {
+					} else if m.isFreshLocal(m.writtenIn(s), v) {
 						bs.Fresh = true
 					}
 				}
@@ -373,6 +373,19 @@ func paramIndex(fi *FuncInfo, info *types.Info, v *types.Var) int {
 
 // isFreshLocal: every assignment to the local in this function is from a source
 // call (Attach, Walk, WalkGetAttr, Create) or a helper returning a File.
+// writtenIn: the function whose body contains the site (a helper judged in Root's context, or
+// Root itself).
+func (m *ServerModel) writtenIn(s *Site) *FuncInfo {
+	if len(s.Inl) > 0 {
+		if f, ok := m.Info.Defs[s.Inl[len(s.Inl)-1].Decl.Name].(*types.Func); ok {
+			if hf := m.L.FuncOf(f); hf != nil {
+				return hf
+			}
+		}
+	}
+	return s.Root
+}
+
 func (m *ServerModel) isFreshLocal(fi *FuncInfo, v *types.Var) bool {
 	info := m.Info
 	fresh, other := 0, 0
